@@ -1,4 +1,5 @@
 """C05 - reported states are consistent with every conditional simple control."""
+from hypothesis import strategies as st
 from ..outcome import fail, inconclusive, passed
 from ..refs import c05_tankgen as G
 
@@ -57,11 +58,16 @@ FEAT = {'nctl': (1, 6), 'tanks': (1, 3), 'vol_curve': 0.35, 'pdd': 0.15}
 STATUS_CODE = {'CLOSED': 0, 'OPEN': 1, 'ACTIVE': 2}
 
 
-def strategy(tier='quick'):
+@st.composite
+def strategy(draw, tier='quick'):
     f = dict(FEAT)
     if tier == 'thorough':
         f['max_steps'] = 200
-    return G.scenario(f)
+    case = draw(G.scenario(f))
+    if draw(st.integers(0, 5)) == 0:
+        # history: run, reset_initial_values(), run again (new or same simulator object); the second run is judged
+        case['history'] = ['rerun', draw(st.sampled_from(['new', 'same']))]
+    return case
 
 
 def enumerate_cases(tier='quick'):
@@ -170,11 +176,12 @@ class Ref(object):
         """reason why link `lname`, reported closed in row k, may be held closed although commanded open"""
         kind, l = self.links[lname]
         ha, hb = self.supply_head(l['a'], k), self.supply_head(l['b'], k)
-        if kind == 'pipe' and l['cv'] and ha - hb <= G.HTOL + 1e-6:
+        no_supply = ha == -float('inf')          # the upstream node is cut off from every source: nothing can flow forward
+        if kind == 'pipe' and l['cv'] and (no_supply or ha - hb <= G.HTOL + 1e-6):
             return 'cv'
         if kind == 'pump':
             hmax = self.shutoff_head(l)
-            if hmax is not None and hb - ha > hmax - 1e-3:
+            if no_supply or (hmax is not None and hb - ha > hmax - 1e-3):
                 return 'pump_shutoff'
         directed = kind == 'pump' or (kind == 'pipe' and l['cv'])
         for end, other in ((l['a'], l['b']), (l['b'], l['a'])):
